@@ -168,9 +168,11 @@ func (vc VisitorContext) visitBranchNode(branchNode *jet.BranchNode) {
 }
 
 func (vc VisitorContext) visitYieldNode(yieldNode *jet.YieldNode) {
-	for _, node := range yieldNode.Parameters.List {
-		if node.Expression != nil {
-			vc.visitNode(node.Expression)
+	if yieldNode.Parameters != nil { // nil for {{yield content}}
+		for _, node := range yieldNode.Parameters.List {
+			if node.Expression != nil {
+				vc.visitNode(node.Expression)
+			}
 		}
 	}
 	if yieldNode.Expression != nil {
@@ -191,7 +193,9 @@ func (vc VisitorContext) visitSetNode(setNode *jet.SetNode) {
 }
 
 func (vc VisitorContext) visitAdditiveExprNode(additiveExprNode *jet.AdditiveExprNode) {
-	vc.visitNode(additiveExprNode.Left)
+	if additiveExprNode.Left != nil { // nil for unary plus/minus
+		vc.visitNode(additiveExprNode.Left)
+	}
 	vc.visitNode(additiveExprNode.Right)
 }
 
@@ -239,8 +243,12 @@ func (vc VisitorContext) visitIndexExprNode(indexNode *jet.IndexExprNode) {
 
 func (vc VisitorContext) visitSliceExprNode(sliceExprNode *jet.SliceExprNode) {
 	vc.visitNode(sliceExprNode.Base)
-	vc.visitNode(sliceExprNode.Index)
-	vc.visitNode(sliceExprNode.EndIndex)
+	if sliceExprNode.Index != nil { // nil for a[:j]
+		vc.visitNode(sliceExprNode.Index)
+	}
+	if sliceExprNode.EndIndex != nil { // nil for a[i:]
+		vc.visitNode(sliceExprNode.EndIndex)
+	}
 }
 
 func (vc VisitorContext) visitCommandNode(commandNode *jet.CommandNode) {
